@@ -162,6 +162,21 @@ func Run(req Request, kinds map[string]KindInfo, resps []Response) Verdict {
 					st.Touched[op.Item] = true
 				}
 			}
+			// a lone command-line marker (UpdateArgs with no arguments: nothing is set after it) releases the
+			// earlier claim like any removal and makes this plugin the owner of the - now empty - command line
+			for _, op := range r.Adjust {
+				if op.Remove && op.Item.Kind == "args" {
+					lone := true
+					for _, o2 := range r.Adjust {
+						if !o2.Remove && o2.Item == op.Item {
+							lone = false
+						}
+					}
+					if lone {
+						own(req.ID)[op.Item] = p
+					}
+				}
+			}
 			for _, op := range r.Adjust {
 				if op.Remove {
 					continue
